@@ -83,10 +83,20 @@ Theorem C10_notify_lost_refuted :
 Proof. exact notify_lost_witness. Qed.
 Print Assumptions C10_notify_lost_refuted.
 
-(* linearizability of close-atomic schedules, BOUNDED: all complete close-atomic schedules of the 302 programs of
-   [bounded_progs] (one name, instance 1 pre-registered; <= 3 operations over <= 3 threads, see RegistryP.v) *)
+(* a compile (or host instantiate) that has passed the closed-runtime check panics on the nil type-id map when
+   Runtime.Close sweeps in between — in a close-atomic schedule: found by the concurrent correspondence run, replayed through
+   a yielding context *)
+Theorem C10_compile_during_close_panics_refuted :
+  exists c, run_sched true (init impl1 cpanic_prog) cpanic_sched = Some c /\ finished c = true /\
+            map e_ret (filter (fun e => e_thr e =? 0) (hist c)) = [RPanic] /\ ~ linearizable spec1 (hist c).
+Proof. exact compile_panic_witness. Qed.
+Print Assumptions C10_compile_during_close_panics_refuted.
+
+(* linearizability of close-atomic schedules, BOUNDED: every complete close-atomic schedule of the 302 programs of
+   [bounded_progs] (one name, instance 1 pre-registered; <= 3 operations over <= 3 threads, see RegistryP.v) is
+   linearizable unless it contains the panic above *)
 Theorem C10_linearizable_partial_bounded_3ops : forall p sched c,
   In p bounded_progs -> run_sched true (init impl1 p) sched = Some c -> finished c = true ->
-  linearizable spec1 (hist c).
+  has_panic (hist c) = true \/ linearizable spec1 (hist c).
 Proof. exact linearizable_atomic_bounded. Qed.
 Print Assumptions C10_linearizable_partial_bounded_3ops.
